@@ -16,7 +16,7 @@ import time
 PID = "C17"
 F = fractions.Fraction
 RADII = {"C": F(6, 10), "N": F(54, 100), "O": F(53, 100), "P": F(94, 100)}
-NAMES = ["C4'", "N1", "O2'", "P", "OP1", "H5'", "MG", "C5"]
+NAMES = ["C4'", "N1", "O2'", "P", "OP1", "H5'", "MG", "C5", "O3'"]
 MARGIN = F(1, 10 ** 6)
 
 
@@ -43,6 +43,11 @@ def typed(name):
 def job_find(spec):
     """spec = (natoms, layout, names tuple, axis) ; layout: residue index per atom"""
     natoms, layout, names, axis = spec[:4]
+    ident = spec[4] if len(spec) > 4 else "num"      # "icode": residues share chain and number and differ in insertion code only
+
+    def auth_of(r):
+        from rnapolis.common import ResidueAuth as RA
+        return RA("A", r + 1, None, "G") if ident == "num" else RA("A", 10, [None, "A", "B"][r], "G")
     reduced = natoms >= 3     # 3 atoms: only ignore_occupancy / ignore_autoclashes / molprobity symbolic, occupancies present, all nucleotides
     sys.path.insert(0, "/verif")
     import z3
@@ -81,13 +86,13 @@ def job_find(spec):
             xyz = [off[0] * 1, off[1] * 1, off[2] * 1]
             xyz[axis] = xyz[axis] + pos[i]
             oc = None if bool(SBool(eng, occ_none[i])) else occ_sym[i]
-            auth = ResidueAuth("A", layout[i] + 1, None, "G")
+            auth = auth_of(layout[i])
             at = Atom(None, None, auth, 1, names[i], xyz[0], xyz[1], xyz[2], oc)
             ats.append(at)
             atoms_by_res[layout[i]].append(at)
         residues = []
         for r in range(nres):
-            auth = ResidueAuth("A", r + 1, None, "G")
+            auth = auth_of(r)
             res = Residue3D(None, auth, 1, "G", tuple(atoms_by_res[r]))
             res.__dict__["is_nucleotide"] = bool(SBool(eng, isnuc[r]))
             residues.append(res)
@@ -155,11 +160,11 @@ def job_find(spec):
                 def val(e):
                     r = m.eval(e, model_completion=True)
                     return float(r.as_fraction()) if z3.is_rational_value(r) else float(r.approx(12).as_fraction())
-                w = {"names": names, "layout": layout, "opts": o, "axis": axis, "gaps": [val(g.e) for g in gaps],
+                w = {"names": names, "layout": layout, "opts": o, "axis": axis, "ident": ident, "gaps": [val(g.e) for g in gaps],
                      "occ": [None if oc is None else val(oc.e) for oc in occs],
                      "isnuc": [bool(residues[r].__dict__["is_nucleotide"]) for r in range(nres)], "pair": [i, j], "listed": bool(cnt)}
             stats["verdicts"].append({"ob": f"({names[i]},{names[j]}) {tag} [opts {o}]", "v": v, "key": "find_clashes:definition", "w": w})
-    stats.update(name=f"find{natoms}:{'/'.join(names)}:{layout}:ax{axis}", queries=eng.nq, solver_s=round(eng.tq, 2), unknown=eng.unknown,
+    stats.update(name=f"find{natoms}:{'/'.join(names)}:{layout}:ax{axis}:{ident}", queries=eng.nq, solver_s=round(eng.tq, 2), unknown=eng.unknown,
                  wall_s=round(time.time() - t0, 2), exhausted=getattr(eng, "exhausted", True))
     return stats
 
@@ -170,17 +175,18 @@ from rnapolis.tertiary import Atom, Residue3D
 from rnapolis.common import ResidueAuth
 w = {w!r}
 names, layout, gaps = w["names"], w["layout"], w["gaps"]
+def auth_of(r): return ResidueAuth("A", r + 1, None, "G") if w.get("ident", "num") == "num" else ResidueAuth("A", 10, [None, "A", "B"][r], "G")
 pos = [0.0]
 for g in gaps: pos.append(pos[-1] + g)
 nres = max(layout) + 1
 byres = {{r: [] for r in range(nres)}}; ats = []
 for i, nm in enumerate(names):
     xyz = [10.0, 20.0, 30.0]; xyz[w["axis"]] += pos[i]
-    a = Atom(None, None, ResidueAuth("A", layout[i] + 1, None, "G"), 1, nm, xyz[0], xyz[1], xyz[2], w["occ"][i])
+    a = Atom(None, None, auth_of(layout[i]), 1, nm, xyz[0], xyz[1], xyz[2], w["occ"][i])
     ats.append(a); byres[layout[i]].append(a)
 residues = []
 for r in range(nres):
-    res = Residue3D(None, ResidueAuth("A", r + 1, None, "G"), 1, "G", tuple(byres[r]))
+    res = Residue3D(None, auth_of(r), 1, "G", tuple(byres[r]))
     res.__dict__["is_nucleotide"] = w["isnuc"][r]
     residues.append(res)
 out = find_clashes(residues, *w["opts"])
@@ -462,6 +468,8 @@ def run(rep, tier):
         for layout in ((0, 1), (0, 0)):
             specs.append(("find", (2, layout, nm, 2)))
     specs.append(("find", (2, (0, 1), ("P", "P"), 0)))
+    specs.append(("find", (2, (0, 1), ("O3'", "P"), 1, "icode")))
+    specs.append(("find", (3, (0, 1, 1), ("OP1", "P", "OP1"), 0, "icode")))
     specs.append(("find", (2, (0, 1), ("C5", "O2'"), 1)))
     tri = [(("P", "OP1", "OP1"), (0, 0, 1)), (("C4'", "N1", "C5"), (0, 1, 1))]
     if tier != "quick":
@@ -476,8 +484,12 @@ def run(rep, tier):
             specs.append(("main", (ncl, lay, False)))
     specs.append(("main", (2, 1, True)))
     specs.append(("main", (3, 2, True)))
-    with multiprocessing.get_context("fork").Pool(ncpu()) as pool:
-        results = pool.map(_dispatch, specs, chunksize=1)
+    from vlib.par import pmap, Crashed
+    results = pmap(_dispatch, specs)
+    for k, r in enumerate(results):
+        if isinstance(r, Crashed):
+            rep.harness_error(f"job {r.item} crashed: {r.why}")
+            results[k] = {"name": str(r.item), "paths": 0, "queries": 0, "solver_s": 0.0, "verdicts": [], "unknown": 0, "wall_s": 0, "reach_listed": 1, "reach": 1, "reached": 1, "missing_classes": []}
     for (kind, sp), r in zip(specs, results):
         rep.add(states=r["paths"], transitions=r["queries"], solver_s=r["solver_s"])
         rep.cov.setdefault("groups", []).append({k: r.get(k) for k in ("name", "paths", "queries", "unknown", "wall_s")})
